@@ -328,7 +328,7 @@ def run_lib(drvbin, b, env, base, img, pname, beh):
 # ---------------------------------------------------------------------------------------------------------------
 # execution through debugfs (front end): one debugfs process per step
 
-NOSPACE = "No free space"
+NOSPACE = "Insufficient space to store extended attribute data"
 
 
 def debugfs_step(b, env, img, work, cmd):
